@@ -141,8 +141,9 @@ Strict  == [strict |-> TRUE,  ncg |-> Mode = "xp3"]
 Relaxed == [strict |-> FALSE, ncg |-> Mode = "xp3"]
 WithNcg == [strict |-> TRUE,  ncg |-> TRUE]
 
-(* x-\d : a multi-character escape where the END point of a range is expected (invalid in XSD 1.0 and 1.1) *)
-EscRangeEnd(w) == \E p \in 1..(Len(w) - 2) : /\ w[p] \in PlainInClass \cup {"%n"} /\ w[p + 1] = "-"
+(* x-\d : a multi-character escape where the END point of a range is expected (invalid in XSD 1.0 and 1.1);
+   x an ordinary character -- starts written as escapes stay with "classdash" *)
+EscRangeEnd(w) == \E p \in 1..(Len(w) - 2) : /\ w[p] \in PlainInClass /\ w[p + 1] = "-"
                                               /\ w[p + 2] \in MultiEsc /\ ClsDepth(w, p - 1) > 0
 
 Why(w) == IF ~NoBadEsc(w) THEN "badesc"
